@@ -1,6 +1,6 @@
 SPECIFICATION GSpecR
 CONSTANTS
-  INSTR = {"i1", "i2"}
+  INSTR = {"i1", "i2", "i3"}
   PRICE = {1, 2, 3}
   AMOUNT = {0, 1, 2}
   RULES = {"Spot", "Futures"}
